@@ -218,14 +218,24 @@ func minUpdateInteriorDistanceMaxError(dist s1.ChordAngle) float64 {
 // and if either the distance was less than the given minDist, or alwaysUpdate is
 // true, the value and whether it was updated are returned.
 func updateMinDistance(x, a, b Point, minDist s1.ChordAngle, alwaysUpdate bool) (s1.ChordAngle, bool) {
+	xa2, xb2 := (x.Sub(a.Vector)).Norm2(), x.Sub(b.Vector).Norm2()
+	dist := s1.ChordAngleFromSquaredLength(math.Min(xa2, xb2))
 	if d, ok := interiorDist(x, a, b, minDist, alwaysUpdate); ok {
-		// Minimum distance is attained along the edge interior.
+		// Minimum distance is attained along the edge interior. When the
+		// closest point is within rounding error of an endpoint, the computed
+		// endpoint distance can be an ulp or so smaller than the computed
+		// interior distance. Report the smaller of the two, so that the result
+		// does not depend on minDist: with a finite minDist the interior case
+		// may be rejected by its prefilter and the endpoint distance reported
+		// instead, and IsDistanceLess(x, a, b, d) must be false for the d
+		// computed here.
+		if dist < d {
+			d = dist
+		}
 		return d, true
 	}
 
 	// Otherwise the minimum distance is to one of the endpoints.
-	xa2, xb2 := (x.Sub(a.Vector)).Norm2(), x.Sub(b.Vector).Norm2()
-	dist := s1.ChordAngleFromSquaredLength(math.Min(xa2, xb2))
 	if !alwaysUpdate && dist >= minDist {
 		return minDist, false
 	}
